@@ -89,7 +89,7 @@ impl World {
             subs.add(&native_pubkey(3));
             NativeScript::new_script_all(&ScriptAll::new(&subs))
         }];
-        let plutus = vec![PlutusScript::new(vec![1, 2, 3]), PlutusScript::new_v2(vec![4; 10]), PlutusScript::new_v3(vec![5; 20])];
+        let plutus = vec![PlutusScript::new(vec![1, 2, 3]), PlutusScript::new_v2(vec![4; 10]), PlutusScript::new_v3(vec![4; 10])]; // 1 and 2: the same bytes under two languages are two scripts
         let policies = vec![native[0].hash(), plutus[1].hash(), sh(2)];
         let names = vec![AssetName::new(vec![]).unwrap(), AssetName::new(b"t".to_vec()).unwrap(), AssetName::new(vec![0x42; 32]).unwrap()];
         let mut w = World {
@@ -137,6 +137,9 @@ impl World {
             // 12, 13: a second UTxO at the Byron address of 5, and another Byron address
             UtxoSpec { owner: Owner::Byron(0), base: false, coin: 3_200_000, assets: vec![] },
             UtxoSpec { owner: Owner::Byron(1), base: false, coin: 3_300_000, assets: vec![] },
+            // 14, 15: locked by the same Plutus script as 7 (their outpoints sort before 7's)
+            UtxoSpec { owner: Owner::Plutus(1), base: false, coin: 4_200_000, assets: vec![] },
+            UtxoSpec { owner: Owner::Plutus(1), base: false, coin: 4_300_000, assets: vec![] },
         ];
         for (i, s) in specs.into_iter().enumerate() {
             let addr = match &s.owner {
@@ -224,6 +227,10 @@ pub enum Op {
     Cert(usize),
     /// 0: key0 5 ADA, 1: native-script account 1 ADA, 2: key2 2^32 lovelace, 3: plutus-script account
     Wd(usize),
+    /// re-add the reward account of Wd(i) with another amount (the entry is replaced)
+    WdAgain(usize),
+    /// add UTxO i again (already an input: the entry is replaced by itself)
+    InAgain(usize),
     /// 0: +10 (pol0,"t") native, 1: -3 (pol0,"t") native, 2: +1 (pol1,"") plutus, 3: +5 (pol0,"") and -5 ... second name
     Mint(usize),
     Proposal(usize),
@@ -250,6 +257,8 @@ pub struct Model {
     pub outputs: Vec<usize>,
     pub certs: Vec<usize>,
     pub wds: Vec<usize>,
+    pub wd_again: Vec<usize>,
+    pub in_again: Vec<usize>,
     pub mint: BTreeMap<(usize, usize), i128>,
     pub proposals: Vec<usize>,
     pub donation: Option<u64>,
@@ -379,11 +388,34 @@ pub fn apply(w: &World, st: &mut St, op: Op) -> bool {
             st.m.certs.push(k);
             true
         }
+        Op::WdAgain(i) => {
+            if !st.m.wds.contains(&i) || st.m.wd_again.contains(&i) {
+                return false;
+            }
+            let key = if i == 0 { 0 } else { 2 };
+            if st.wds.add(&reward_key(key), &bn(WD_AMOUNT[i] / 2 + 7)).is_err() {
+                return false;
+            }
+            st.m.wd_again.push(i);
+            true
+        }
+        Op::InAgain(i) => {
+            if !st.m.inputs.iter().any(|x| x.0 == i) || st.m.in_again.contains(&i) {
+                return false;
+            }
+            if st.ib.add_regular_utxo(&w.utxos[i].1).is_err() {
+                return false;
+            }
+            st.m.in_again.push(i);
+            true
+        }
         Op::Wd(i) => {
             if st.m.wds.contains(&i) {
                 return false;
             }
             let r = match i {
+                // a withdrawal of nothing still needs the account's signature
+                4 => st.wds.add(&reward_key(3), &bn(0)),
                 0 => st.wds.add(&reward_key(0), &bn(WD_AMOUNT[0])),
                 1 => st.wds.add_with_native_script(&RewardAddress::new(1, &Credential::from_scripthash(&w.native[0].hash())), &bn(WD_AMOUNT[1]), &NativeScriptSource::new(&w.native[0])),
                 2 => st.wds.add(&reward_key(2), &bn(WD_AMOUNT[2])),
@@ -530,9 +562,19 @@ pub fn config(i: usize) -> (&'static str, Params) {
             p.do_not_burn = true;
             "do_not_burn_extra_change"
         }
-        _ => {
+        5 => {
             p.dedup_ref_inputs = true;
             "deduplicate_explicit_ref_inputs"
+        }
+        6 => {
+            p.change_kind = 1;
+            p.prefer_pure_change = true;
+            "byron-change-address,prefer_pure_change"
+        }
+        _ => {
+            p.change_kind = 1;
+            p.max_value_size = 70;
+            "byron-change-address,max_value_size=70"
         }
     };
     (name, p)
@@ -667,7 +709,15 @@ pub fn finish(w: &World, st: &St, params: &Params, method: Method, ctx: &mut Ctx
             out.offered.push(i);
         }
     }
-    let change = w.change.clone();
+    let change = match params.change_kind {
+        0 => w.change.clone(),
+        // a Daedalus-style Byron address (derivation-path attribute): 76 bytes, longer than any Shelley address
+        1 => {
+            let r = crate::props::c11::RefByron { root: vec![0x3c; 28], payload: Some([vec![0x58, 0x1e], vec![0x77; 30]].concat()), magic: None, typ: 0 };
+            ByronAddress::from_bytes(crate::props::c11::byron_bytes(&r)).expect("harness Byron address").to_address()
+        }
+        _ => enterprise_addr(3),
+    };
     let cc = ChangeConfig::new(&change);
     let tbm = &mut out.tb;
     let res: Result<Result<bool, JsError>, crate::engine::PanicRec> = match method {
@@ -811,15 +861,16 @@ pub fn ops_for(prop: &str) -> Vec<Op> {
             Op::Cert(0), Op::Cert(1), Op::Cert(2), Op::Cert(3), Op::Cert(7), Op::Cert(8), Op::Cert(13), Op::Cert(15), Op::Cert(20),
             Op::Wd(0), Op::Wd(2), Op::Mint(0), Op::Mint(1), Op::Mint(3), Op::Proposal(0), Op::Donate,
             Op::Fee(0), Op::Fee(1), Op::Fee(2), Op::Fee(3), Op::Coll(1), Op::Meta, Op::RefIn(1), Op::RefIn(3),
+            Op::WdAgain(0), Op::WdAgain(2), Op::Wd(4), Op::InAgain(0), Op::In(7, 0), Op::In(7, 1), Op::In(8, 0),
         ],
         "C18" | "C16" => vec![
-            Op::In(0, 0), Op::In(2, 0), Op::In(1, 0), Op::In(5, 0), Op::In(13, 0), Op::In(12, 0), Op::In(6, 0), Op::In(6, 1), Op::In(10, 0), Op::In(7, 0), Op::In(7, 1), Op::In(11, 0), Op::In(8, 0),
+            Op::In(0, 0), Op::In(2, 0), Op::In(1, 0), Op::In(5, 0), Op::In(13, 0), Op::In(12, 0), Op::In(6, 0), Op::In(6, 1), Op::In(10, 0), Op::In(7, 0), Op::In(7, 1), Op::In(11, 0), Op::In(8, 0), Op::In(14, 0),
             Op::Out(0), Op::Coll(1), Op::Coll(0), Op::Cert(5), Op::Cert(7), Op::Cert(8), Op::Cert(6), Op::Cert(13), Op::Cert(25),
             Op::Wd(0), Op::Wd(1), Op::Wd(3), Op::Vote(0), Op::Vote(1), Op::Vote(2), Op::Vote(3), Op::Vote(4),
             Op::Mint(0), Op::Mint(2), Op::ReqSigner(3), Op::ReqSigner(0), Op::RefIn(0), Op::RefIn(1), Op::RefIn(2), Op::ExtraDatum(0), Op::ExtraDatum(1), Op::ExtraDatum(3), Op::Meta,
         ],
         "C09" | "C10" => vec![
-            Op::In(0, 0), Op::In(7, 0), Op::In(7, 1), Op::In(8, 0), Op::In(11, 0), Op::In(6, 0), Op::In(2, 0),
+            Op::In(0, 0), Op::In(7, 0), Op::In(7, 1), Op::In(8, 0), Op::In(11, 0), Op::In(6, 0), Op::In(2, 0), Op::In(14, 0), Op::In(15, 0), Op::In(15, 1),
             Op::Mint(0), Op::Mint(2), Op::Cert(25), Op::Cert(5), Op::Cert(26), Op::Cert(16), Op::Wd(0), Op::Wd(1), Op::Wd(3), Op::Vote(1), Op::Vote(3), Op::Vote(4),
             Op::ExtraDatum(0), Op::ExtraDatum(1), Op::ExtraDatum(3), Op::Meta, Op::Out(0),
         ],
@@ -844,9 +895,9 @@ pub fn configs_for(prop: &str, tier: Tier) -> Vec<usize> {
     match prop {
         "C05" | "C06" | "C07" | "C03" => {
             if tier.thorough() {
-                vec![0, 1, 2, 3, 4, 5]
+                vec![0, 1, 2, 3, 4, 5, 6, 7]
             } else {
-                vec![0, 1, 2, 3, 5]
+                vec![0, 1, 2, 3, 5, 6]
             }
         }
         "C18" | "C16" => vec![0, 5],
